@@ -21,11 +21,30 @@ abbrev Body := List (Str × Str) × List Elem
 
 def mkNode (tag : Str) (b : Body) : Elem := .node tag b.1 b.2
 
-/-- body holding just a text (an empty text renders as an element without children) -/
-def tb (s : Str) : Body := ([], if s = [] then [] else [.text s])
+/-- How the renderer lays out the text of a text-carrying element as child nodes.  ANY layout
+whose text children, joined in order, give the text: one text node (`TextFrag.single`), any
+number of fragments interleaved with comments / processing instructions
+(`TextFrag.ofFragments` in `Props/C17.lean`), an element without children for the empty text, ….
+Every rendering function and every `parse_render_K` theorem is parametric in it. -/
+class TextFrag where
+  frag : Str → List Elem
+  view : ∀ s, concatText (frag s) = s
+
+/-- the plain layout: one text node (none for the empty text) -/
+@[reducible] def TextFrag.single : TextFrag where
+  frag s := if s = [] then [] else [.text s]
+  view s := by
+    split
+    · next h => rw [h]; rfl
+    · simp [concatText]
+
+variable [TextFrag]
+
+/-- body holding just a text, laid out by the `TextFrag` in force -/
+def tb (s : Str) : Body := ([], TextFrag.frag s)
 
 /-- text body with a `Name` attribute (`pVariable`, `Constant`, `Expression`) -/
-def ntb (name s : Str) : Body := ([(cs!"Name", name)], if s = [] then [] else [.text s])
+def ntb (name s : Str) : Body := ([(cs!"Name", name)], TextFrag.frag s)
 
 /-- which of the four address elements -/
 inductive AddrTag | address | intSwissKnife | pAddress | pIndex
@@ -402,8 +421,8 @@ inductive ValueM (L : Type) where
 /-- body of `ValueIndexed` / `pValueIndexed` with its `Index` attribute -/
 def indexedBody {L : Type} (text : L → Str) (x : IntLit × IR L) : Bool × Body :=
   match x.2 with
-  | .imm l => (false, ([(cs!"Index", x.1.text)], if text l = [] then [] else [.text (text l)]))
-  | .ref n => (true, ([(cs!"Index", x.1.text)], if n.name = [] then [] else [.text n.name]))
+  | .imm l => (false, ([(cs!"Index", x.1.text)], TextFrag.frag (text l)))
+  | .ref n => (true, ([(cs!"Index", x.1.text)], TextFrag.frag n.name))
 
 def ValueM.segs {L : Type} (text : L → Str) : ValueM L → List Seg
   | .value l => [.one cs!"Value" (tb (text l))]
@@ -527,8 +546,8 @@ def specIntSwissKnife (m : IntSwissKnifeM F) (st : St F) : IntSwissKnifeNode × 
 
 /-! ## Register base -/
 
-/-- one address particle (an embedded `IntSwissKnife` is not part of the abstract syntax
-of the theorems; it is covered by the correspondence run) -/
+/-- one knife-free address particle (address lists that embed `IntSwissKnife` declarations:
+`AddrK` / `RegK` in section `Embedded` below, which generalise this) -/
 inductive AddrM where
   | address (l : IntLit)
   | pAddress (n : RefName)
@@ -1380,5 +1399,223 @@ def specEnumeration (pr : Profile) (m : EnumerationM F) (st : St F) : R (Enumera
     .ok ({ attr := a.1, elem := e.1, streamable := (m.streamable.map BoolLit.val).getD false,
            entries := en.1, value := v.1, pSelected := s.1,
            pollingTime := m.pollingTime.map UintLit.val }, s.2)
+
+/-! ## Fragmented element text, noise between elements -/
+
+/-- comments and processing instructions -/
+def IsMarkupNoise : Elem → Prop
+  | .comment _ => True
+  | .pi => True
+  | _ => False
+
+/-- anything but an element (whitespace text included): what the cursor skips -/
+def IsNonElem : Elem → Prop
+  | .node _ _ _ => False
+  | _ => True
+
+/-- children of a text-carrying element: any number `k` of text fragments, a run of comments /
+processing instructions before the first, between any two, and after the last one:
+`j0 ++ [text f1] ++ j1 ++ [text f2] ++ j2 ++ …` -/
+def fragChildren : List Elem → List (Str × List Elem) → List Elem
+  | j0, [] => j0
+  | j0, (f, j) :: r => j0 ++ .text f :: fragChildren j r
+
+/-- the fragments in order -/
+def fragText (frs : List (Str × List Elem)) : Str := (frs.map (·.1)).flatten
+
+/-- all noise runs of a fragmented text are comments / processing instructions -/
+def FragNoise (j0 : List Elem) (frs : List (Str × List Elem)) : Prop :=
+  (∀ x ∈ j0, IsMarkupNoise x) ∧ ∀ fr ∈ frs, ∀ x ∈ fr.2, IsMarkupNoise x
+
+/-- body of a text-carrying element with fragmented text -/
+def fb (j0 : List Elem) (frs : List (Str × List Elem)) : Body := ([], fragChildren j0 frs)
+
+/-- the text children of any children list, in order -/
+def textsOf : List Elem → List Str
+  | [] => []
+  | .text s :: r => s :: textsOf r
+  | _ :: r => textsOf r
+
+/-! ## Registers whose address list embeds IntSwissKnife declarations
+
+`AddrK` extends the address particles of `AddrM` by an embedded `<IntSwissKnife Name=…>`: the
+parser parses it like a top-level IntSwissKnife, stores it (`store_node`) and the register's
+address list refers to its id.  Because of the `store_node` the normal forms are `Res`-valued:
+with debug assertions a knife whose id already holds a node panics. -/
+
+section Embedded
+variable [FloatLit F]
+
+inductive AddrK (F : Type) [FloatLit F] where
+  | plain (a : AddrM)
+  | knife (k : IntSwissKnifeM F)
+
+def AddrK.body : AddrK F → AddrTag × Body
+  | .plain a => a.body
+  | .knife k => (.intSwissKnife, (k.attr.render, k.children))
+
+/-- sequencing of `Res`-valued state functions over a list -/
+def listR {α β : Type} (f : α → St F → R (β × St F)) : List α → St F → R (List β × St F)
+  | [], st => .ok ([], st)
+  | a :: as, st =>
+    (f a st).bind fun r => (listR f as r.2).bind fun rs => .ok (r.1 :: rs.1, rs.2)
+
+def addrKS (pr : Profile) : AddrK F → St F → R (AddressKind × St F)
+  | .plain a, st => .ok (addrS a st)
+  | .knife k, st =>
+    (storeNodeS pr (specIntSwissKnife k st).1.attr.id (.intSwissKnife (specIntSwissKnife k st).1)
+      (specIntSwissKnife k st).2).bind fun st' =>
+        .ok (.intSwissKnife (specIntSwissKnife k st).1.attr.id, st')
+
+/-- register base with embedded knives allowed among the address particles -/
+structure RegK (F : Type) [FloatLit F] where
+  elem : ElemM
+  streamable : Option BoolLit
+  addrs : List (AddrK F)
+  length : IR IntLit
+  accessMode : Option AccessMode
+  pPort : Str
+  cacheable : Option CachingMode
+  pollingTime : Option UintLit
+  pInvalidators : List Str
+
+def RegK.segs (m : RegK F) : List Seg :=
+  m.elem.segs [] ++
+    [ .opt cs!"Streamable" (m.streamable.map fun b => tb b.text),
+      .manyAddr (m.addrs.map AddrK.body),
+      .one2 cs!"Length" cs!"pLength" (irBody IntLit.text m.length),
+      .opt cs!"AccessMode" (m.accessMode.map fun a => tb a.text),
+      .one cs!"pPort" (tb m.pPort),
+      .opt cs!"Cachable" (m.cacheable.map fun c => tb c.text),
+      .opt cs!"PollingTime" (m.pollingTime.map fun l => tb l.text),
+      .many cs!"pInvalidator" (m.pInvalidators.map tb) ]
+
+/-- a knife-free register base as a `RegK` -/
+def RegM.toK (m : RegM) : RegK F :=
+  { elem := m.elem, streamable := m.streamable, addrs := m.addrs.map .plain, length := m.length,
+    accessMode := m.accessMode, pPort := m.pPort, cacheable := m.cacheable,
+    pollingTime := m.pollingTime, pInvalidators := m.pInvalidators }
+
+def specRegK (pr : Profile) (m : RegK F) (st : St F) : R (RegBase × St F) :=
+  let e := specElem m.elem [] st
+  (listR (addrKS pr) m.addrs e.2).bind fun a =>
+    let l := irIntS m.length a.2
+    let p := internS m.pPort l.2
+    let i := listS internS m.pInvalidators p.2
+    .ok ({ elemBase := e.1, streamable := (m.streamable.map BoolLit.val).getD false,
+           addressKinds := a.1, length := l.1, accessMode := m.accessMode.getD .ro, pPort := p.1,
+           cacheable := m.cacheable.getD .writeThrough,
+           pollingTime := m.pollingTime.map UintLit.val, pInvalidators := i.1 }, i.2)
+
+/-- the five register kinds over a `RegK`; `tail` = the kind-specific optional elements -/
+structure IntRegK (F : Type) [FloatLit F] where
+  attr : AttrM
+  reg : RegK F
+  sign : Option Sign
+  endianness : Option Endianness
+  unit : Option Str
+  representation : Option IntRepr
+  pSelected : List Str
+
+def IntRegK.children (m : IntRegK F) : List Elem :=
+  flat (m.reg.segs ++ intRegTail m.sign m.endianness m.unit m.representation m.pSelected)
+def IntRegK.render (m : IntRegK F) : Elem := .node cs!"IntReg" m.attr.render m.children
+
+def specIntRegK (pr : Profile) (m : IntRegK F) (st : St F) : R (IntRegNode × St F) :=
+  let a := specAttr m.attr st
+  (specRegK pr m.reg a.2).bind fun r =>
+    let s := listS internS m.pSelected r.2
+    .ok ({ attr := a.1, reg := r.1, sign := m.sign.getD .unsigned,
+           endianness := m.endianness.getD .le, unit := m.unit,
+           representation := m.representation.getD .pureNumber, pSelected := s.1 },
+         invalS r.1.pInvalidators a.1.id s.2)
+
+structure MaskedK (F : Type) [FloatLit F] where
+  attr : AttrM
+  reg : RegK F
+  bitMask : BitM
+  sign : Option Sign
+  endianness : Option Endianness
+  unit : Option Str
+  representation : Option IntRepr
+  pSelected : List Str
+
+def MaskedK.children (m : MaskedK F) : List Elem :=
+  flat (m.reg.segs ++ m.bitMask.segs ++
+    intRegTail m.sign m.endianness m.unit m.representation m.pSelected)
+def MaskedK.render (m : MaskedK F) : Elem := .node cs!"MaskedIntReg" m.attr.render m.children
+
+def specMaskedK (pr : Profile) (m : MaskedK F) (st : St F) : R (MaskedIntRegNode × St F) :=
+  let a := specAttr m.attr st
+  (specRegK pr m.reg a.2).bind fun r =>
+    let s := listS internS m.pSelected r.2
+    .ok ({ attr := a.1, reg := r.1, bitMask := m.bitMask.val, sign := m.sign.getD .unsigned,
+           endianness := m.endianness.getD .le, unit := m.unit,
+           representation := m.representation.getD .pureNumber, pSelected := s.1 },
+         invalS r.1.pInvalidators a.1.id s.2)
+
+structure PlainRegK (F : Type) [FloatLit F] where
+  attr : AttrM
+  reg : RegK F
+
+def PlainRegK.children (m : PlainRegK F) : List Elem := flat m.reg.segs
+def PlainRegK.render (tag : Str) (m : PlainRegK F) : Elem := .node tag m.attr.render m.children
+
+def specPlainRegK (pr : Profile) (m : PlainRegK F) (st : St F) : R (PlainRegNode × St F) :=
+  let a := specAttr m.attr st
+  (specRegK pr m.reg a.2).bind fun r =>
+    .ok (⟨a.1, r.1⟩, invalS r.1.pInvalidators a.1.id r.2)
+
+structure FloatRegK (F : Type) [FloatLit F] where
+  attr : AttrM
+  reg : RegK F
+  endianness : Option Endianness
+  unit : Option Str
+  representation : Option FloatRepr
+  displayNotation : Option DisplayNotation
+  displayPrecision : Option IntLit
+
+def FloatRegK.children (m : FloatRegK F) : List Elem :=
+  flat (m.reg.segs ++
+    [ .opt cs!"Endianess" (m.endianness.map fun x => tb x.text),
+      .opt cs!"Unit" (m.unit.map tb),
+      .opt cs!"Representation" (m.representation.map fun r => tb r.text),
+      .opt cs!"DisplayNotation" (m.displayNotation.map fun r => tb r.text),
+      .opt cs!"DisplayPrecision" (m.displayPrecision.map fun l => tb l.text) ])
+def FloatRegK.render (m : FloatRegK F) : Elem := .node cs!"FloatReg" m.attr.render m.children
+
+def specFloatRegK (pr : Profile) (m : FloatRegK F) (st : St F) : R (FloatRegNode × St F) :=
+  let a := specAttr m.attr st
+  (specRegK pr m.reg a.2).bind fun r =>
+    .ok ({ attr := a.1, reg := r.1, endianness := m.endianness.getD .le, unit := m.unit,
+           representation := m.representation.getD .pureNumber,
+           displayNotation := m.displayNotation.getD .automatic,
+           displayPrecision := (m.displayPrecision.map IntLit.val).getD 6 },
+         invalS r.1.pInvalidators a.1.id r.2)
+
+/-- `StructReg` over a `RegK`: the structure's own address list may embed IntSwissKnife
+declarations as well -/
+structure StructK (F : Type) [FloatLit F] where
+  attrs : List (Str × Str)
+  reg : RegK F
+  endianness : Option Endianness
+  entries : List EntryM
+
+def StructK.children (m : StructK F) : List Elem :=
+  flat (m.reg.segs ++
+    [ .opt cs!"Endianess" (m.endianness.map fun x => tb x.text),
+      .many cs!"StructEntry" (m.entries.map EntryM.body) ])
+def StructK.render (m : StructK F) : Elem := .node cs!"StructReg" m.attrs m.children
+
+/-- a knife-free `StructReg` as a `StructK` -/
+def StructM.toK (m : StructM) : StructK F :=
+  { attrs := m.attrs, reg := m.reg.toK, endianness := m.endianness, entries := m.entries }
+
+def specStructK (pr : Profile) (m : StructK F) (st : St F) : R (List MaskedIntRegNode × St F) :=
+  (specRegK pr m.reg st).bind fun r =>
+    let es := listS specEntry m.entries r.2
+    .ok (maskedOfEntries r.1 (m.endianness.getD .le) es.1 es.2)
+
+end Embedded
 
 end CamVerif.XmlParse
